@@ -60,13 +60,16 @@ def spec_check(ctx, wd):
 
 
 def fail_sets(n, rng, limit):
+    """sets of jobs whose command fails: all of them, or `limit` of them (single failures first - the most
+    discriminating for skip propagation -, then no failure, then random larger sets)"""
     allsets = [set(c) for k in range(n + 1) for c in itertools.combinations(range(1, n + 1), k)]
     if limit is None or len(allsets) <= limit:
         return allsets
-    picked = [set(), set(range(1, n + 1))]
-    rest = [s for s in allsets if s not in picked]
+    singles = [s for s in allsets if len(s) == 1]
+    rest = [s for s in allsets if len(s) > 1]
+    rng.shuffle(singles)
     rng.shuffle(rest)
-    return picked + rest[:limit - 2]
+    return (singles[:max(1, limit - 1)] + [set()] + singles[max(1, limit - 1):] + rest)[:limit]
 
 
 def run(ctx):
@@ -80,15 +83,15 @@ def run(ctx):
     G = _dsl.GEN_CONSTS
     # (name, spec constants, generator constants, simulate, failing sets per executed class (None = all), executed classes cap)
     if ctx.quick:
-        gens = [("ex3", consts(MaxJobs=3, MaxCmds=9), dict(G, MaxDeps=2, MaxUses=2, MaxEdges=2, Undefined="TRUE"), None, 3, None),
-                ("sim4", consts(MaxJobs=4, MaxCmds=9), dict(G, MaxDeps=5, MaxUses=4, MaxEdges=6, MinLen=7), "num=250", 3, 40)]
+        gens = [("ex3", consts(MaxJobs=3, MaxCmds=9), dict(G, MaxDeps=2, MaxUses=2, MaxEdges=2, Undefined="TRUE"), None, 2, None),
+                ("sim4", consts(MaxJobs=4, MaxCmds=9), dict(G, MaxDeps=5, MaxUses=4, MaxEdges=6, MinLen=7), "num=250", 2, 40)]
     else:
         gens = [("ex2", consts(MaxJobs=2, Names='{"o", "p"}', MaxCmds=9),
-                 dict(G, MaxDeps=4, MaxUses=4, MaxEdges=8, FullJobs="FALSE", UsedDefsOnly="FALSE", Undefined="TRUE", MaxRefs=2), None, None, None),
+                 dict(G, MaxDeps=4, MaxUses=2, MaxEdges=5, FullJobs="FALSE", Undefined="TRUE", MaxRefs=2), None, None, None),
                 ("ex3", consts(MaxJobs=3, MaxCmds=9), dict(G, MaxDeps=3, MaxUses=3, MaxEdges=3), None, None, None),
-                ("sim4", consts(MaxJobs=4, MaxCmds=9), dict(G, MaxDeps=6, MaxUses=5, MaxEdges=8, MinLen=7), "num=4000", 6, 500),
+                ("sim4", consts(MaxJobs=4, MaxCmds=9), dict(G, MaxDeps=6, MaxUses=5, MaxEdges=8, MinLen=7), "num=4000", 4, 300),
                 ("sim5", consts(MaxJobs=5, Names='{"o", "p"}', MaxCmds=9),
-                 dict(G, MaxDeps=8, MaxUses=6, MaxEdges=10, MinLen=9, MaxRefs=2), "num=3000", 5, 400)]
+                 dict(G, MaxDeps=8, MaxUses=6, MaxEdges=10, MinLen=9, MaxRefs=2), "num=3000", 4, 200)]
     meta, nprog, tasks = {}, {}, []
     for name, c, g, sim, nfail, cap in gens:
         # exhaustive bounds: one TLC run checks the invariants on every canonical program + its run and prints the programs
@@ -107,7 +110,7 @@ def run(ctx):
             key = (name, k, -1)
             tasks.append((key, p, None, str(ctx.build / "run" / f"{name}-{k}"), ctx.seed))
             meta[key] = (p, None)
-    results = _dsl.run_local_many(tasks, ctx.workers)
+    results = _dsl.run_local_many(tasks, 1 if len(tasks) < 6000 else ctx.workers)  # ~1 ms each: no job is run
     # executions: one program per (final dependency sets, always_run flags) class among the numbered ones, each
     # with all / several sets of failing commands
     tasks = []
